@@ -340,9 +340,12 @@ func (c *Ctx) crdVia(args []string, input []byte, via string) run.Result {
 	return run.Run(c.Bin, cmd)
 }
 
-var viaRoutes = []string{"redir", "dash", "file", "devstdin", "fifo", "relfile"}
+// (FILE = /dev/stdin and FILE = a named pipe were routes of every driver for a while; the statements speak of "a FILE argument",
+// and a crd that insists on a regular file there keeps every sentence -- second audit, DESIGN 10.66.  The two cases of
+// crdVia stay for drivers that ask for them by name; none does any more.)
+var viaRoutes = []string{"redir", "dash", "file", "relfile"}
 
-// viaFor picks a route from a hash of the input: 6 in 16 requests leave the plain pipe
+// viaFor picks a route from a hash of the input: 4 in 16 requests leave the plain pipe
 func viaFor(input string) string {
 	h := fnv.New32a()
 	h.Write([]byte(input))
